@@ -22,6 +22,40 @@ type State struct {
 	held  map[string]*Term // lock key -> Bool (held)
 	snap  map[string]*State // named snapshots (lock acquisition etc.)
 	owners map[string]PtrV  // owner object of each monitor lock taken
+	havocs []havocRec       // wholesale heap havocs so far (for keys first read later)
+}
+
+// havocRec: a call havocked every heap key matching prefix ("*" suffix = true
+// prefix, otherwise the key and its #components; all = every key). Keys that
+// no state has read yet are not in State.heap: their base symbol is chosen by
+// the latest matching record, so that a first read AFTER the call does not see
+// the entry-state value.
+type havocRec struct {
+	prefix string
+	all    bool
+	id     int
+}
+
+func keyMatches(prefix, key string) bool {
+	if strings.HasSuffix(prefix, "*") {
+		return strings.HasPrefix(key, prefix[:len(prefix)-1])
+	}
+	return key == prefix || strings.HasPrefix(key, prefix+"#")
+}
+
+func (e *Engine) addHavoc(s *State, prefix string, all bool) {
+	e.havocSeq++
+	s.havocs = append(s.havocs[:len(s.havocs):len(s.havocs)], havocRec{prefix: prefix, all: all, id: e.havocSeq})
+}
+
+func (e *Engine) heapBase(s *State, key string, so *Sort) *Term {
+	for i := len(s.havocs) - 1; i >= 0; i-- {
+		h := s.havocs[i]
+		if h.all || keyMatches(h.prefix, key) {
+			return e.C.Const(fmt.Sprintf("H@%d:%s", h.id, key), so)
+		}
+	}
+	return heapInit(e.C, key, so)
 }
 
 type deferRec struct {
@@ -30,7 +64,7 @@ type deferRec struct {
 }
 
 func (s *State) clone() *State {
-	n := &State{pc: s.pc, next: s.next, alloc: s.alloc}
+	n := &State{pc: s.pc, next: s.next, alloc: s.alloc, havocs: s.havocs}
 	n.cells = make(map[*Cell]Value, len(s.cells))
 	for k, v := range s.cells {
 		n.cells[k] = v
@@ -73,7 +107,7 @@ func (e *Engine) heapGet(s *State, key string, so *Sort) *Term {
 		panic(fmt.Sprintf("heap key %s used at sorts %s and %s", key, old, so))
 	}
 	e.heapSorts[key] = so
-	return heapInit(e.C, key, so)
+	return e.heapBase(s, key, so)
 }
 
 func (e *Engine) heapSet(s *State, key string, t *Term) {
@@ -926,6 +960,41 @@ func (e *Engine) mergeStates(ga *Term, a *State, gb *Term, b *State) *State {
 		so := e.heapSorts[k]
 		ta, tb := e.heapGet(a, k, so), e.heapGet(b, k, so)
 		out.heap[k] = c.Ite(g, ta, tb)
+	}
+	// wholesale havocs: common history kept; if the histories differ, known
+	// keys whose base differs are merged explicitly and keys not read so far
+	// by anybody become arbitrary (a fresh record per differing prefix)
+	{
+		n := 0
+		for n < len(a.havocs) && n < len(b.havocs) && a.havocs[n].id == b.havocs[n].id {
+			n++
+		}
+		out.havocs = a.havocs[:n:n]
+		if n < len(a.havocs) || n < len(b.havocs) {
+			for _, k := range sortedSortKeys(e.heapSorts) {
+				if _, ok := out.heap[k]; ok {
+					continue
+				}
+				so := e.heapSorts[k]
+				ta, tb := e.heapBase(a, k, so), e.heapBase(b, k, so)
+				if ta != tb {
+					out.heap[k] = c.Ite(g, ta, tb)
+				}
+			}
+			seenP := map[string]bool{}
+			for _, tail := range [][]havocRec{a.havocs[n:], b.havocs[n:]} {
+				for _, h := range tail {
+					pk := h.prefix
+					if h.all {
+						pk = "\x00all"
+					}
+					if !seenP[pk] {
+						seenP[pk] = true
+						e.addHavoc(out, h.prefix, h.all)
+					}
+				}
+			}
+		}
 	}
 	out.next = c.Ite(g, a.next, b.next)
 	out.alloc = c.Ite(g, a.alloc, b.alloc)
